@@ -23,6 +23,7 @@ type TNode struct {
 	Children []*TNode
 	Void     bool
 	Self     bool
+	Tight    bool // self-closing written without a blank before the slash: <name/>, <name a=b/>
 	CloseAs  string
 }
 
@@ -141,6 +142,9 @@ func (g *tmplGen) elem(cond string) *TNode {
 		if g.r.Chance(20) {
 			e.Name = strings.ToUpper(e.Name)
 		}
+		if g.r.Chance(25) { // a self-closing block element: <t:block/>, <t:block :insert="f" />
+			e.Self = true
+		}
 	default:
 		e.Name = g.r.Pick([]string{"title", "textarea", "script"})
 	}
@@ -233,6 +237,9 @@ func (g *tmplGen) elem(cond string) *TNode {
 	}
 	shuffle(g.r, attrs)
 	e.Attrs = attrs
+	if e.Self && len(attrs) == 0 && g.r.Chance(60) {
+		e.Tight = true // only without attributes: otherwise the slash would become part of the last attribute
+	}
 	if !e.Void && !e.Self && !raw && g.depth < 4 {
 		g.depth++
 		e.Children = g.siblings(g.r.Intn(4))
@@ -313,7 +320,9 @@ func printNodes(ns []*TNode) string {
 		case "cdata":
 			sb.WriteString("<![CDATA[" + n.Text + "]]>")
 		default:
-			if n.Self {
+			if n.Self && n.Tight {
+				sb.WriteString("<" + n.Name + printAttrs(n.Attrs) + "/>")
+			} else if n.Self {
 				sb.WriteString("<" + n.Name + printAttrs(n.Attrs) + " />")
 			} else if n.Void {
 				sb.WriteString("<" + n.Name + printAttrs(n.Attrs) + ">")
